@@ -36,6 +36,9 @@ type streamState struct {
 	downRead int
 	upDone   bool
 	downDone bool
+	// harnessClosed: the workload itself closed this stream (C12 stream churn);
+	// errors on it are then expected
+	harnessClosed bool
 }
 
 func genSessParams(g *Gen, maxConn int) SessParams {
@@ -312,7 +315,7 @@ func firstNonEmpty(a ...string) string {
 func init() {
 	register(&Family{
 		Name:  "c01-sess",
-		Count: func(tier string) int { return map[string]int{"quick": 1200, "thorough": 40000}[tier] },
+		Count: func(tier string) int { return map[string]int{"quick": 6000, "thorough": 300000}[tier] },
 		Gen:   genC01,
 		New:   func() any { return &C01Scenario{} },
 		Run:   runC01,
